@@ -230,6 +230,9 @@ def run(prop, tier, replay=None):
         # monitor, not part of the conformance check
         with open(vlib.ROOT + "/corpus/ost_concrete.json") as f:
             scen += json.load(f)
+        if prop == "C12":
+            import bigecho
+            scen += bigecho.scenarios(tier)
     log(prop, len(scen), "scenarios")
 
     # 3. execute on the real stack
